@@ -40,6 +40,8 @@ var (
 	PortShard = 0
 )
 
+func init() { world.RestartPort = freePort }
+
 func freePort() string {
 	if portBase == 0 {
 		// one private range per shard, below the ephemeral port range (a probe dialling a free port
